@@ -16,7 +16,7 @@ fn main() {
     common::quiet_panics();
     let prop = args[1].as_str();
     if args[2] == "--depth" {
-        std::process::exit(lanes::c11::depth_child(args[3].parse().expect("depth")));
+        std::process::exit(lanes::c11::depth_child(args[3].parse().expect("depth"), args.get(4).map(|s| s.as_str()).unwrap_or("universal")));
     }
     if args[2] == "--replay" {
         let v: serde_json::Value = serde_json::from_str(&std::fs::read_to_string(&args[3]).expect("replay file")).expect("json");
